@@ -59,6 +59,12 @@ def plan(tier, seed):
             specs.append(dict(name="e2e-jit-%d" % p, mode="jit", what="e2e", n=12, seed=[seed, 189, p]))
     else:
         specs.append(dict(name="e2e-jit", mode="jit", what="e2e", n=2, seed=[seed, 189, 0]))
+    # the same work in an interpreter started with -O (assert statements compiled away)
+    byname = {sp["name"]: sp for sp in specs}
+    if 'entry-0' in byname:
+        specs.append(common.under_O(byname['entry-0'], **{}))
+    if 'kernel-interp' in byname:
+        specs.append(common.under_O(byname['kernel-interp'], **{'n': 200}))
     return specs
 
 
